@@ -259,8 +259,10 @@ class Analysis(object):
             if p["t"] == "PUBLISH":
                 tok = token_of(p["payload"])
             elif p["t"] in ("SUBSCRIBE", "UNSUBSCRIBE") and p["topics"]:
-                t0 = p["topics"][0]
-                tok = token_of(t0[0] if isinstance(t0, tuple) else t0)
+                for t0 in p["topics"]:       # (the token is in the first filter of the call; wherever it ended up in the packet)
+                    tok = token_of(t0[0] if isinstance(t0, tuple) else t0)
+                    if tok is not None:
+                        break
             e["token"] = tok
             if tok is not None and tok in self.by_token:
                 self.by_token[tok].tx.append(e)
